@@ -464,7 +464,7 @@ func runC13(c *report.Ctx) {
 					s := &an.Search{P: p, Fn: f, GoalReturn: func(r *ssa.Return, pred *ssa.BasicBlock) bool {
 						if res := f.Signature.Results(); res.Len() == 1 {
 							// bool result: returning true is acceptance
-							k, ok := r.Results[0].(*ssa.Const)
+							k, ok := an.RetOperand(r, 0).(*ssa.Const)
 							return !(ok && k.Value != nil && !constant.BoolVal(k.Value))
 						}
 						return p.ClassifyReturn(r, pred) != an.RetError
